@@ -1,6 +1,7 @@
 import GtirbVerif.Lemmas.IRBytes
 import GtirbVerif.Lemmas.Splice
 import GtirbVerif.Lemmas.IRBatch
+import GtirbVerif.Lemmas.IRAll
 
 /-!
 # C01 — rewriting edits bytes exactly like editing the assembly listing
@@ -130,6 +131,24 @@ theorem loop_is_listing {ir ir' : IR} {b i : Nat} {blk : Block} {iv : Interval} 
   rw [hl1, ← hsplit] at this
   rw [this]
 
+/-- **`apply()`'s loop over all the blocks that have requests.**  `IR.applyAll` hands each block's
+resolved requests to `IR.applyMods`; during a rewrite every block has a byte interval of its
+own.  If it succeeds, the interval of *every* edited block holds the listing splice of that
+block (`expected`), and every other interval the module had is untouched: the requests of one
+block never move, resize or re-home a non-empty block of another interval (`Frame`, proved
+through split, join, remove, clean-up, patch placement and the whole loop), so each later
+request list finds its block and its bytes as they were.
+
+Hypotheses, per request list: a non-empty block inside the initialized bytes of its interval,
+sorted disjoint requests (`ReqOk`); the edited blocks lie in pairwise different intervals;
+ids below the counter; patch blocks are new objects when inserted (`NewBlocksAll`). -/
+theorem all_blocks_are_listing_edits (rs : List BlockMods) (ir ir' : IR)
+    (h : ir.applyAll rs = .ok ir') (hI : IdsBelow ir) (hok : ∀ r ∈ rs, ReqOk ir r)
+    (hnd : (rs.map (ivOf ir)).Nodup) (hnew : NewBlocksAll ir rs) :
+    (∀ r ∈ rs, ∀ i, ivOf ir r = some i → ir'.bytesOf i = expected ir r) ∧
+    (∀ j, (∀ r ∈ rs, ivOf ir r ≠ some j) → ir.bytesOf j ≠ none → ir'.bytesOf j = ir.bytesOf j) :=
+  applyAll_listing rs ir ir' h hI hok hnd hnew
+
 /-! ### the hypotheses are satisfiable (non-vacuity) -/
 
 /-- a module with one data block of four bytes behind one filler byte -/
@@ -154,6 +173,28 @@ example : NewBlocks 1 none exIR (some 1) 0 exMods := by
     split
     · trivial
     · intro _ _ _; simp [NewBlocks]
+/-- two blocks, each in its own interval, each with a deletion -/
+private def exIR2 : IR :=
+  { sections := [(0, ".data")],
+    intervals := [{ id := 7, sect := 0, addr := some 0x1000, size := 3, bytes := [1, 2, 3], symExprs := [] },
+                  { id := 8, sect := 0, addr := some 0x1003, size := 2, bytes := [4, 5], symExprs := [] }],
+    blocks := [{ id := 1, isCode := false, bi := some 7, off := 0, size := 3 },
+               { id := 2, isCode := false, bi := some 8, off := 0, size := 2 }],
+    order := [(0, [[1], [2]])], next := 3 }
+
+private def exReqs : List BlockMods := [⟨1, none, [.del 1 1 false]⟩, ⟨2, none, [.del 0 1 false]⟩]
+
+example : (exReqs.map (ivOf exIR2)) = [some 7, some 8] := rfl
+example : ∀ r ∈ exReqs, ReqOk exIR2 r := by
+  intro r hr
+  simp only [exReqs, List.mem_cons, List.not_mem_nil, or_false] at hr
+  rcases hr with rfl | rfl
+  · exact ⟨_, 7, [1, 2, 3], rfl, rfl, by decide, rfl, by decide, by simp [Disjoint, Mod.toLEdit, Mod.off, Mod.len]⟩
+  · exact ⟨_, 8, [4, 5], rfl, rfl, by decide, rfl, by decide, by simp [Disjoint, Mod.toLEdit, Mod.off, Mod.len]⟩
+example : expected exIR2 ⟨1, none, [.del 1 1 false]⟩ = some [1, 3] := by decide
+example : ((exIR2.applyAll exReqs).toOption.map (fun r => (r.bytesOf 7, r.bytesOf 8))) = some (some [1, 3], some [5]) := by
+  decide +kernel
+
 /-- the loop succeeds on it, and the bytes are the listing's: `1` and `3` are gone -/
 example : ((exIR.applyMods 1 none (some 1) 0 exMods).toOption.bind (·.bytesOf 7)) = some [0, 2, 4] := by decide +kernel
 
